@@ -29,6 +29,9 @@ def run(tier, seed):
                     continue
                 for tt in ((False, True) if n <= 2 else (False,)):
                     cases.append(Case('many_n%d_k%d_m%d_t%d' % (n, kp, mp, tt), 'crypto', 'zzC02_many', [n, kp, mp, tt], opts=opts))
+    # key objects obtained by aggregation + removal (points not in affine form) at some positions: both groupings
+    for (n, kp, mp, mask) in [(2, 1, 0, 1), (2, 1, 0, 3), (2, 0, 1, 1), (3, 5, 0, 2), (3, 0, 5, 4)] + ([(3, 5, 1, 7), (3, 5, 0, 5), (4, 27, 0, 6)] if thorough else []):
+        cases.append(Case('derived_n%d_k%d_m%d_d%d' % (n, kp, mp, mask), 'crypto', 'zzC02_many_derived', [n, kp, mp, mask], opts=opts))
     # one key signing m distinct messages: one group of m hashes on the per-distinct-key path, m pairs > the
     # multi-pairing batch of 8 on the other (no map-order forks: a single key)
     for m in ((9, 17) if thorough else (9,)):
@@ -38,6 +41,7 @@ def run(tier, seed):
         functions=['VerifyBLSSignatureManyMessages', 'VerifyBLSSignatureOneMessage', 'AggregateBLSPublicKeys', 'C:bls_verifyPerDistinctMessage', 'C:bls_verifyPerDistinctKey', 'C:E2_sum_vector', 'C:E1_sum_vector', 'C:Fp12_multi_pairing', 'C:map_to_G1'],
         bounds={'n': 'n <= %d triples; every assignment pattern of keys and of messages to positions (set partitions; a subset of the 25 pattern pairs for n = 3 in the quick tier), equal points in distinct key objects, one or two hashers' % (4 if thorough else 3),
                 'maps': 'every iteration order of the Go map that is ranged over (the engine forks over all orders); which C path runs follows from the pattern',
+                'key objects': 'fresh from the private key; in the derived_* cases obtained by AggregateBLSPublicKeys + RemoveBLSPublicKeys (same point, not in affine form)',
                 'candidates': 'honest aggregate + delta*g1 with symbolic delta; cancelling keys; identity key; error cases',
                 'wide': 'one key with 9 (thorough: 17) distinct messages, crossing the batch-of-8 boundaries', 'outside': 'n > 4 in general (a defect that needs more than 17 entries in one group, e.g. a batch of 64, is outside the bound: seeded change C02_d is missed); BLST internals'},
         assumptions=ASSUME + ['distinct message ids give distinct messages (first byte)'], trusted=galg.TRUSTED + stubs_hash.TRUSTED,
